@@ -745,3 +745,22 @@ def tracker_clear(cx):
     rst = [s for sp, s in cx.prog.calls_out[c.fn.key] if s.kind == "call" and sp.endswith("confchange::restore::restore")]
     ok = bool(clr) and bool(rst) and all(g.dominated_by_block(s.at, lambda b: b in clr) for s in rst)
     cx.check(ok, "install:clear-before-restore", "the snapshot install clears the tracker before rebuilding the configuration from the snapshot")
+    # ... and the rebuild is not optional: once the log was reset to the snapshot, every way out of the install function
+    # passes the configuration rebuild (membership entries covered by the snapshot are never handed out for apply, so a
+    # skipped rebuild leaves the old configuration in force for good)
+    rb = {s.block for s in rst}
+    if rst and not g.truncated:
+        seen, work, leak = set(), [n_ for n_ in range(len(g.nodes)) if g.nodes[n_][0] == c.block], None
+        while work:
+            n_ = work.pop()
+            if n_ in seen:
+                continue
+            seen.add(n_)
+            bi = g.nodes[n_][0]
+            if bi in rb and bi != c.block:
+                continue
+            if c.fn.body.blocks[bi]["term"]["k"] == "return":
+                leak = bi
+                break
+            work.extend(m for m, _ in g.edges[n_] or [])
+        cx.check(leak is None, "install:rebuild-always", "after RaftLog::restore every path to the end of the install function rebuilds the tracker from the snapshot's configuration", c)
